@@ -2,12 +2,33 @@ import SimpleDnsModel.Text
 import SimpleDnsModel.Model.Match
 import SimpleDnsModel.Model.Compress
 import SimpleDnsModel.Model.NameText
+import SimpleDnsModel.Model.Txt
 import SimpleDnsModel.Spec.NameDecode
 import SimpleDnsModel.Spec.Rfc1035Header
 open Dns Dns.Text
 
 def words (line : String) : List String :=
   (line.trimAscii.toString.splitOn " ").filter (· ≠ "")
+
+def insertSorted (x : String × String) : List (String × String) → List (String × String)
+  | [] => [x]
+  | y :: ys => if x.1 < y.1 then x :: y :: ys else y :: insertSorted x ys
+
+/-- attribute maps are printed sorted by the hex of the key (the implementation's is a HashMap) -/
+def showAttrs (m : Attrs) : String :=
+  let items := m.map fun e => (hexOfBytes (bytesOfString e.1),
+    match e.2 with | none => "-" | some v => hexOfBytes (bytesOfString v))
+  let sorted := items.foldl (fun acc x => insertSorted x acc) []
+  showList (fun x => x.1 ++ " " ++ x.2) sorted
+
+def pStr : P String := fun ts => do
+  let (b, ts) ← pBytes ts
+  let s ← stringOfBytes? b
+  pure (s, ts)
+
+def pOptStr : P (Option String)
+  | "-" :: ts => some (none, ts)
+  | ts => (pStr ts).map fun (s, ts) => (some s, ts)
 
 def showNamePos (x : Name × Nat) : String := showName x.1 ++ " " ++ toString x.2
 
@@ -99,6 +120,30 @@ def answer (ts : List String) : String :=
         (match a.without b with | some n => showName n | none => "none") ++ " " ++
         showBool a.isLinkLocal
     | _ => "bad-op"
+  | ["txt.ofstr", hex] =>
+    match pStr [hex] with
+    | some (s, []) => showOut (showList hexOfBytes) (Txt.ofStr s)
+    | _ => "bad-op"
+  | "txt.tostr" :: rest =>
+    match pCounted pBytes rest with
+    | some (ss, []) => showOut (fun s => hexOfBytes (bytesOfString s)) (Txt.toStr ss)
+    | _ => "bad-op"
+  | "txt.attrs" :: rest =>
+    match pCounted pBytes rest with
+    | some (ss, []) => "ok " ++ showAttrs (Txt.attributes ss)
+    | _ => "bad-op"
+  | "txt.long" :: rest =>
+    match pCounted pBytes rest with
+    | some (ss, []) => showOut showAttrs (Txt.longAttributes ss)
+    | _ => "bad-op"
+  | "txt.ofmap" :: rest =>
+    match pCounted (pPair pStr pOptStr) rest with
+    | some (m, []) => showOut (showList hexOfBytes) (Txt.ofMap m)
+    | _ => "bad-op"
+  | ["cs.new", hex] =>
+    match bytesOfHex hex with
+    | some b => showOut hexOfBytes (CharStr.new b)
+    | none => "bad-op"
   | ["type", c] =>
     match c.toNat? with
     | some c => (TYPE.ofCode c).mnemonic ++ " " ++ toString (TYPE.ofCode c).toCode
